@@ -1002,3 +1002,177 @@ class BoolFacts:
 
     def switches(self):
         return list(self._sw)
+
+
+
+# ------------------------------------------------------------------------------------------------
+# appended: calls of closure values built in the same body
+
+_FN_CALL = re.compile(r"(<.* as )?core::ops::function::Fn(Mut|Once)?>?::call(_mut|_once)?")
+
+
+def closure_call_targets(body, bb):
+    """Closure / coroutine body keys that the `Fn*::call*` at block bb may run, resolved by *value*: the callee
+    operand goes back (whole-local moves / borrows, any number of definitions) to closure aggregates built in this
+    body. [] when bb is not such a call or the callee value comes from elsewhere (a parameter, a field).
+    Covers the generic-callback call left behind when canon.py splices a helper `fn f<F: FnOnce(..)>(.., body: F)`
+    into its caller: the operand keeps the helper's type parameter `F` as its type, only the value says what runs."""
+    t = body.blocks[bb]["term"]
+    if t.get("t") != "call" or not t["args"] or not any(_FN_CALL.fullmatch(p) for p in callee_paths(t)):
+        return []
+    ba = BA.of(body)
+    out = []
+    seen = set()
+    todo = [op_local(t["args"][0])]
+    while todo:
+        l = todo.pop()
+        if l is None or l in seen:
+            continue
+        seen.add(l)
+        for d in ba.defs.get(l, []):
+            if d[0] != "stmt":
+                continue
+            rv = d[3]
+            if rv["k"] == "agg" and rv.get("agg") in ("closure", "coroutine", "coroutine_closure"):
+                out.append(strip_generics(rv["def"]))
+            elif rv["k"] in ("use", "cast"):
+                p = op_place(rv["op"])
+                if p is not None and (not p["p"] or p["p"] == ["deref"]):
+                    todo.append(p["l"])
+            elif rv["k"] == "ref":
+                p = rv["place"]
+                if not p["p"] or p["p"] == ["deref"]:
+                    todo.append(p["l"])
+    return sorted(set(out))
+
+
+# ------------------------------------------------------------------------------------------------
+# appended: variant-aware backward slice through identity steps
+
+_TRY_BRANCH = re.compile(r"(<.* as )?core::ops::try_trait::Try>?::branch")
+_FROM_RESIDUAL = re.compile(r"(<.* as )?core::ops::try_trait::FromResidual(<.*>)?>?::from_residual")
+_UNWRAPS = re.compile(r"core::(result::Result|option::Option)::(unwrap|expect|unwrap_or_default|unwrap_or)")
+_MAP_ERR = re.compile(r"core::result::Result::map_err")
+
+
+def flow_origins(body, local, pend=(), depth=600):
+    """Where does the value of `local` come from, by *direct* steps?  value_origins() extended with the
+    identity-preserving steps of core.IDENTITY_CALLS and with borrows, so that it can replace C06.backward_direct
+    where the slice crosses `?`: backward_direct follows `Try::branch` and `from_residual` as plain identity calls and so
+    mixes the *error* half of every Result on the way into the slice (after a helper `fn f(..) -> Result<T>` with an
+    inner `?` was spliced in, the helper's early `return Err(..)` value and everything it is made from become
+    "origins" of the Ok value). Here a walk that is inside the Ok/Some payload of a value only continues through
+    definitions that can hold that payload: `Ok{x}`/`Some{x}` aggregates, `Try::branch` of a Result/Option, `map_err`;
+    `from_residual` and aggregates of the other variant are dead ends.
+
+    Returns [(kind, bb, info)]: ('call', bb, term) a non-identity call whose result (or, with a pending payload read,
+    whose result's payload) is the value; ('agg', bb, rvalue) an aggregate that is the value; ('param', None, n)
+    parameter n; ('upvar', None, index) a captured variable; ('other', bb, None) anything else."""
+    from core import IDENTITY_CALLS
+    ba = BA.of(body)
+    out = []
+    seen = set()
+    todo = [(local, tuple(pend))]
+    n = 0
+    while todo and n < depth:
+        n += 1
+        l, pend = todo.pop()
+        if l is None or (l, pend) in seen:
+            continue
+        seen.add((l, pend))
+        ds = [d for d in ba.defs.get(l, []) if d[0] in ("stmt", "call", "yield")]
+        if 1 <= l <= body.arg_count and not pend:
+            out.append(("param", None, l))
+        if not ds:
+            if not (1 <= l <= body.arg_count):
+                out.append(("other", None, None))
+            continue
+        for d in ds:
+            if d[0] == "yield":
+                out.append(("other", d[1], None))
+                continue
+            if d[0] == "call":
+                t = d[2]
+                ps = callee_paths(t)
+                a0 = op_place(t["args"][0]) if t["args"] else None
+                if any(_FROM_RESIDUAL.fullmatch(p) for p in ps):
+                    continue                                    # builds the failure variant only
+                if any(_TRY_BRANCH.fullmatch(p) for p in ps):
+                    if pend and pend[-1][0] == "Continue" and a0 is not None and not a0["p"]:
+                        ty = (t.get("arg_tys") or [""])[0]
+                        todo.append((a0["l"], pend[:-1] + (("Ok" if ty.startswith("core::result::Result") else "Some", pend[-1][1]),)))
+                    elif not pend:
+                        out.append(("other", d[1], None))
+                    continue                                    # (a pending Break payload: the error half)
+                if any(_MAP_ERR.fullmatch(p) for p in ps) and a0 is not None and not a0["p"]:
+                    if pend and pend[-1][0] == "Err":
+                        out.append(("call", d[1], t))
+                    else:
+                        todo.append((a0["l"], pend))
+                    continue
+                if any(_UNWRAPS.fullmatch(p) for p in ps) and a0 is not None and not a0["p"]:
+                    ty = (t.get("arg_tys") or [""])[0]
+                    todo.append((a0["l"], pend + (("Ok" if "result::Result" in ty else "Some", "0"),)))
+                    continue
+                if any(IDENTITY_CALLS.fullmatch(p) for p in ps) and a0 is not None and not pend:
+                    u = upvar_index(a0)
+                    if u is not None:
+                        out.append(("upvar", None, u[0]))
+                    elif not a0["p"] or a0["p"] == ["deref"]:
+                        todo.append((a0["l"], ()))
+                    else:
+                        out.append(("other", d[1], None))
+                    continue
+                out.append(("call", d[1], t))
+                continue
+            rv = d[3]
+            if rv["k"] in ("use", "cast"):
+                p = op_place(rv["op"])
+                if p is None:
+                    out.append(("other", d[1], None))
+                    continue
+                u = upvar_index(p)
+                if u is not None:
+                    out.append(("upvar", None, u[0]))
+                    continue
+                proj = [e for e in p["p"] if e != "deref"]
+                add = []
+                ok = True
+                i = 0
+                while i < len(proj):
+                    if proj[i].startswith("as:") and i + 1 < len(proj) and proj[i + 1].startswith("f:"):
+                        add.append((proj[i][3:], proj[i + 1][2:].rsplit(".", 1)[-1]))
+                        i += 2
+                    else:
+                        ok = False
+                        break
+                if not ok:
+                    out.append(("other", d[1], None))
+                    continue
+                todo.append((p["l"], pend + tuple(reversed(add))))
+            elif rv["k"] == "ref":
+                p = rv["place"]
+                u = upvar_index(p)
+                if u is not None:
+                    out.append(("upvar", None, u[0]))
+                elif all(e == "deref" for e in p["p"]):
+                    todo.append((p["l"], pend))
+                else:
+                    out.append(("other", d[1], None))
+            elif rv["k"] == "agg" and rv.get("agg") == "adt":
+                if not pend:
+                    out.append(("agg", d[1], rv))
+                else:
+                    var, fld = pend[-1]
+                    if rv.get("variant") != var:
+                        continue
+                    for f, o in zip(rv.get("fields", []), rv["ops"]):
+                        if f == fld:
+                            q = op_place(o)
+                            if q is not None and not q["p"]:
+                                todo.append((q["l"], pend[:-1]))
+                            else:
+                                out.append(("other", d[1], None))
+            else:
+                out.append(("other", d[1], None))
+    return out
